@@ -3,6 +3,7 @@ C01 - property theorems (label indexing returns exactly the data stored at those
 Only statements and their proofs from helper lemmas; helper lemmas live in Proofs/.
 -/
 import DimModel.Proofs.C01
+import DimModel.Proofs.C01Take
 namespace DimModel
 open Lib
 
@@ -539,5 +540,518 @@ example : locateOne [.num 10, .num 3, .num 7] (.num 5) (some (.fin 1)) = .error 
     simp only [argminRat, argminRat.go, ratAbs, List.map, Tol.ge]
     grind
   exact ⟨h, (locateOne_tol_error _ _ (.fin 1) 5 [10, 3, 7] rfl rfl (by simp)).1.mp h⟩
+
+/-! ## Round 4: the read END TO END under every spelling
+
+The theorems below are about `Lib.take`, the function the driver calls for every read
+(`a[...]`, `.loc`, `.sel`, `.ix`, `.iloc`, `.isel`, `.nloc`, `take(indices, axis=, indexing=, tol=,
+keepdims=)`): position mode, dict / `axis=` forms, short tuples and `Ellipsis`, `keepdims`, masks
+under any mode, tolerance. Helper lemmas are in `Proofs/C01Take.lean`. -/
+
+/-! ### the spellings select the mode -/
+
+/-- `.loc` / `.sel` / `indexing='label'`: label mode whatever the option was at construction -/
+theorem mode_loc (c : IndexCfg) (h : c.toggle = false) (hi : c.indexing = some .label) :
+    c.mode = .label := by simp [IndexCfg.mode, h, hi]
+
+/-- `.iloc` / `.isel` / `indexing='position'`: position mode whatever the option was -/
+theorem mode_iloc (c : IndexCfg) (h : c.toggle = false) (hi : c.indexing = some .position) :
+    c.mode = .position := by simp [IndexCfg.mode, h, hi]
+
+/-- `a[...]` / `take(...)` without `indexing=`: the mode captured from `indexing.by` -/
+theorem mode_default (c : IndexCfg) (h : c.toggle = false) (hi : c.indexing = none) :
+    c.mode = c.captured := by simp [IndexCfg.mode, h, hi]
+
+/-- `.ix` toggles the captured mode -/
+theorem mode_ix (c : IndexCfg) (h : c.toggle = true) :
+    c.mode = (if c.captured = .position then .label else .position) := by
+  cases hc : c.captured <;> simp [IndexCfg.mode, h, hc]
+
+/-! ### position mode (`.ix`, `.iloc`, `.isel`, `indexing='position'`) -/
+
+/-- some index is a slice with step 0 (`ValueError` in Python) -/
+def Spec.ZeroStep (ixs : List Ix) : Prop := ∃ s e, Ix.slice s e (some 0) ∈ ixs
+
+/-- **C01, position mode.** With one positional index per dimension - an integer (negative: from
+the end), a list of integers, a boolean mask or a slice - the read is the outer (orthogonal)
+selection at the positions `Spec.posPositions` names for each dimension independently: scalar
+indices drop their dimension, the other axes carry the labels found at the selected positions, in
+the selected order (`Spec.takeAxes`), the values are `a[selected positions]` (`NDArr.outer`),
+metadata is kept. Otherwise (integer out of range, non-integer, mask of the wrong length, zero
+step) the read fails: with `IndexError`, or `ValueError` which only a zero slice step can cause. -/
+theorem take_position_spec {α : Type} (a : DimArray α) (ixs : List Ix) (cfg : IndexCfg)
+    (hm : cfg.mode = .position) (hk : cfg.keepdims = false)
+    (hlen : ixs.length = a.axes.length) (hs : ∀ ix ∈ ixs, ix ≠ .ellipsis)
+    (hax : ∀ ax ∈ a.axes, ax.members = []) :
+    (∀ ps, (ixs.zip a.axes).mapM (fun x => Spec.posPositions x.2.labels.length x.1) = some ps →
+      Lib.take a (.tuple ixs) cfg =
+        .ok { axes := Spec.takeAxes a.axes ps, vals := a.vals.outer ps, vkind := a.vkind,
+              attrs := a.attrs }) ∧
+    ((ixs.zip a.axes).mapM (fun x => Spec.posPositions x.2.labels.length x.1) = none →
+      ∃ e, Lib.take a (.tuple ixs) cfg = .error e ∧
+        (e = .index ∨ (e = .value ∧ Spec.ZeroStep ixs))) := by
+  apply C01T.take_of_spec a (.tuple ixs) ixs cfg (C01T.PosErr (Spec.ZeroStep ixs))
+    (fun ix ax => Spec.posPositions ax.labels.length ix)
+    (C01T.normalize_tuple _ ixs (by simpa using hlen) hs) hlen
+  intro x hx
+  have hx' := List.of_mem_zip hx
+  exact C01T.perDim_position cfg hm hk x.1 x.2 (hax x.2 hx'.2) (hs x.1 hx'.1) _
+    (fun s e h => ⟨s, e, h ▸ hx'.1⟩)
+
+
+/-- read off `take_position_spec`: result axes, shape, and the value at every result index `j` -/
+theorem take_position_get {α : Type} (a : DimArray α) (ixs : List Ix) (cfg : IndexCfg)
+    (hm : cfg.mode = .position) (hk : cfg.keepdims = false)
+    (hlen : ixs.length = a.axes.length) (hs : ∀ ix ∈ ixs, ix ≠ .ellipsis)
+    (hax : ∀ ax ∈ a.axes, ax.members = []) (ps : List PosIx) (r : DimArray α)
+    (hps : (ixs.zip a.axes).mapM (fun x => Spec.posPositions x.2.labels.length x.1) = some ps)
+    (hr : Lib.take a (.tuple ixs) cfg = .ok r) (j : List Nat) :
+    r.axes = Spec.takeAxes a.axes ps ∧ r.vals.shape = outerShape ps ∧
+      r.vals.get j = a.vals.get (expandIx ps j) := by
+  rw [(take_position_spec a ixs cfg hm hk hlen hs hax).1 ps hps] at hr
+  cases hr
+  exact ⟨rfl, rfl, rfl⟩
+
+/-- an integer outside `[-n, n)` is an `IndexError`, never a wrapped or clipped position -/
+theorem take_position_out_of_range {α : Type} (a : DimArray α) (ixs : List Ix) (cfg : IndexCfg)
+    (hm : cfg.mode = .position) (hk : cfg.keepdims = false)
+    (hlen : ixs.length = a.axes.length) (hs : ∀ ix ∈ ixs, ix ≠ .ellipsis)
+    (hax : ∀ ax ∈ a.axes, ax.members = []) (hz : ¬ Spec.ZeroStep ixs)
+    (k : Nat) (hk1 : k < ixs.length) (i : Int) (hix : ixs[k] = .scalar (.num (i : Rat)))
+    (hout : i < -((a.axes[k]'(by omega)).labels.length : Int) ∨
+      ((a.axes[k]'(by omega)).labels.length : Int) ≤ i) :
+    Lib.take a (.tuple ixs) cfg = .error .index := by
+  have hnone : (ixs.zip a.axes).mapM (fun x => Spec.posPositions x.2.labels.length x.1) = none := by
+    apply C01T.optMapM_none_of_mem _ _ (ixs[k], a.axes[k]'(by omega))
+    · apply List.mem_iff_getElem.mpr
+      exact ⟨k, by simp; omega, by simp⟩
+    · simp only [hix, Spec.posPositions, C01T.intOf_int, Option.bind_some, Spec.normPos]
+      have h1 : ¬ (0 ≤ i ∧ i < ((a.axes[k]'(by omega)).labels.length : Int)) := by omega
+      have h2 : ¬ (i < 0 ∧ 0 ≤ i + ((a.axes[k]'(by omega)).labels.length : Int)) := by omega
+      simp [h1, h2]
+  obtain ⟨e, he, h | ⟨_, h⟩⟩ := (take_position_spec a ixs cfg hm hk hlen hs hax).2 hnone
+  · rw [he, h]
+  · exact absurd h hz
+
+
+/-- non-vacuity: `.ix[-1, [2, -3]]` on the 2x3 array of `exArr` (option `indexing.by = 'label'`):
+row 1, columns 2 and 0; the result axis carries the labels found there (`2`, `3`). -/
+def exPosIx : List Ix := [.scalar (.num (-1)), .list [.num 2, .num (-3)]]
+def exPosCfg : IndexCfg := { toggle := true }
+
+example : (Lib.take exArr (.tuple exPosIx) exPosCfg).toOption.map
+      (fun r => (r.dims, r.axes.map (·.labels), r.vals.toList))
+    = some (["y"], [[.num 2, .num 3]], [5, 3]) := by
+  rw [(take_position_spec exArr exPosIx exPosCfg (by decide) (by decide) (by decide) (by decide)
+    (by decide)).1 [.scalar 1, .list [2, 0]] (by decide)]
+  decide
+
+/-- a slice with a negative step and a mask: `.ix[::-1, [True, False, True]]` -/
+example : (([.slice none none (some (-1)), .mask [true, false, true]] : List Ix).zip exArr.axes).mapM
+      (fun x => Spec.posPositions x.2.labels.length x.1) = some [.list [1, 0], .list [0, 2]] := by
+  decide
+
+/-- `.ix[2, :]` on a dimension of length 2: out of range, `IndexError` -/
+example : Lib.take exArr (.tuple [.scalar (.num ((2 : Int) : Rat)), fullIx]) exPosCfg = .error .index :=
+  take_position_out_of_range exArr _ exPosCfg (by decide) (by decide) (by decide) (by decide)
+    (by decide) (by intro ⟨s, e, h⟩; simp [fullIx] at h) 0 (by decide) 2 rfl (by decide)
+
+/-! ### short tuples and `Ellipsis` -/
+
+/-- a tuple shorter than the number of dimensions indexes the leading dimensions; the trailing
+ones get a full slice -/
+theorem take_tuple_pad {α : Type} (a : DimArray α) (ixs : List Ix) (cfg : IndexCfg)
+    (hlen : ixs.length ≤ a.axes.length) (hs : ∀ ix ∈ ixs, ix ≠ .ellipsis) :
+    Lib.take a (.tuple ixs) cfg =
+      Lib.take a (.tuple (ixs ++ List.replicate (a.axes.length - ixs.length) fullIx)) cfg := by
+  rw [C01T.take_eq, C01T.take_eq]
+  have h1 : ∀ l, normalizeIndex (a.axes.map (·.name)) (.tuple l) =
+      expandedIndexer l (a.axes.map (·.name)).length := fun _ => rfl
+  have hs' : ∀ ix ∈ ixs ++ List.replicate (a.axes.length - ixs.length) fullIx, ix ≠ .ellipsis := by
+    intro ix hix
+    simp only [List.mem_append, List.mem_replicate] at hix
+    rcases hix with h | ⟨_, h⟩
+    · exact hs ix h
+    · rw [h]; simp [fullIx]
+  rw [h1, h1, C01T.expandedIndexer_noEll _ _ (by simpa using hlen) hs,
+    C01T.expandedIndexer_noEll _ _ (by simp; omega) hs']
+  simp only [List.length_map, List.length_append, List.length_replicate]
+  have : a.axes.length - (ixs.length + (a.axes.length - ixs.length)) = 0 := by omega
+  rw [this]
+  simp
+
+/-- more indices than dimensions: `IndexError` -/
+theorem take_tuple_too_long {α : Type} (a : DimArray α) (ixs : List Ix) (cfg : IndexCfg)
+    (hlen : a.axes.length < ixs.length) (hs : ∀ ix ∈ ixs, ix ≠ .ellipsis) :
+    Lib.take a (.tuple ixs) cfg = .error .index := by
+  rw [C01T.take_eq]
+  have h1 : normalizeIndex (a.axes.map (·.name)) (.tuple ixs) =
+      expandedIndexer ixs (a.axes.map (·.name)).length := rfl
+  rw [h1, C01T.expandedIndexer_tooLong _ _ (by simpa using hlen) hs]
+  rfl
+
+/-- one `Ellipsis` stands for the full slices needed to reach the number of dimensions -/
+theorem take_ellipsis {α : Type} (a : DimArray α) (pre post : List Ix) (cfg : IndexCfg)
+    (hpre : ∀ ix ∈ pre, ix ≠ .ellipsis) (hpost : ∀ ix ∈ post, ix ≠ .ellipsis)
+    (hlen : pre.length + post.length ≤ a.axes.length) :
+    Lib.take a (.tuple (pre ++ .ellipsis :: post)) cfg =
+      Lib.take a (.tuple (pre ++ List.replicate (a.axes.length - pre.length - post.length) fullIx
+        ++ post)) cfg := by
+  rw [C01T.take_eq, C01T.take_eq]
+  have h1 : ∀ l, normalizeIndex (a.axes.map (·.name)) (.tuple l) =
+      expandedIndexer l (a.axes.map (·.name)).length := fun _ => rfl
+  have hs' : ∀ ix ∈ pre ++ List.replicate (a.axes.length - pre.length - post.length) fullIx ++ post,
+      ix ≠ .ellipsis := by
+    intro ix hix
+    simp only [List.mem_append, List.mem_replicate] at hix
+    rcases hix with (h | ⟨_, h⟩) | h
+    · exact hpre ix h
+    · rw [h]; simp [fullIx]
+    · exact hpost ix h
+  rw [h1, h1, C01T.expandedIndexer_ellipsis pre post _ hpre hpost (by simpa using hlen),
+    C01T.expandedIndexer_noEll _ _ (by simp; omega) hs']
+  simp only [List.length_map, List.length_append, List.length_replicate]
+  have : a.axes.length - (pre.length + (a.axes.length - pre.length - post.length) + post.length) = 0 := by
+    omega
+  rw [this]
+  simp
+
+/-! ### dict form `{dim: index}` (also `.sel(**kw)` / `.isel(**kw)`) and `take(index, axis=)` -/
+
+/-- **dict form = tuple form.** If the keys name the dimensions `ds` (`Spec.KeyDim`: by name, by
+position, by negative position), indexing by the mapping is indexing by the tuple that has, for
+each dimension, the index given for it and a full slice elsewhere (`Spec.dictKey`) - in every mode
+and configuration, errors included. (When two keys name the same dimension the model keeps the
+later one; see `dictKey_mem` for the reading under distinct keys.) -/
+theorem take_dict_eq_tuple {α : Type} (a : DimArray α) (l : List (DimKey × Ix)) (ds : List String)
+    (cfg : IndexCfg) (hlen : ds.length = l.length)
+    (hds : ∀ i (h : i < l.length), Spec.KeyDim a.dims l[i].1 (ds[i]'(by omega))) :
+    Lib.take a (.dict l) cfg =
+      Lib.take a (.tuple (Spec.dictKey a.dims (ds.zip (l.map (·.2))))) cfg := by
+  have hkv : C01T.dictKV a.dims l = .ok (ds.zip (l.map (·.2))) := by
+    apply C01T.dictKV_ok
+    apply C01T.all2_of_getElem
+    · intro i h
+      refine ⟨?_, ?_⟩
+      · simpa using hds i h
+      · simp
+    · simp [hlen]
+  rw [C01T.take_eq, C01T.take_eq]
+  have h1 := C01T.normalize_dict a.dims l
+  rw [hkv] at h1
+  unfold DimArray.dims at h1
+  rw [h1]
+  rfl
+
+/-- a key naming no dimension is an error (`ValueError` for a name, `IndexError` for a position) -/
+theorem take_dict_badkey {α : Type} (a : DimArray α) (l : List (DimKey × Ix)) (cfg : IndexCfg)
+    (hbad : ∃ x ∈ l, ∀ d, ¬ Spec.KeyDim a.dims x.1 d) :
+    ∃ e, Lib.take a (.dict l) cfg = .error e ∧ (e = .value ∨ e = .index) := by
+  obtain ⟨e, he, hE⟩ := C01T.dictKV_err a.dims l hbad
+  refine ⟨e, ?_, hE⟩
+  rw [C01T.take_eq]
+  have h1 := C01T.normalize_dict a.dims l
+  rw [he] at h1
+  unfold DimArray.dims at h1
+  rw [h1]
+  rfl
+
+/-- reading of `Spec.dictKey` when every dimension is named at most once: the dimension gets the
+index paired with it -/
+theorem dictKey_mem (dims : List String) (kv : List (String × Ix)) (hn : (kv.map (·.1)).Nodup)
+    (j : Nat) (hj : j < dims.length) (ix : Ix) (hmem : (dims[j], ix) ∈ kv) :
+    (Spec.dictKey dims kv)[j]'(by simpa [Spec.dictKey] using hj) = ix := by
+  rw [C01T.dictKey_getElem dims kv j hj]
+  rw [C01T.find?_unique (fun x => x.1 == dims[j]) kv.reverse (dims[j], ix) (by simpa using hmem) (by simp)]
+  · rfl
+  · intro y hy hpy
+    have hy' : y ∈ kv := by simpa using hy
+    have hy1 : y.1 = dims[j] := by simpa using hpy
+    exact C01T.nodup_map_inj (·.1) kv hn y hy' _ hmem (by simpa using hy1)
+
+/-- ... and a dimension that is not named gets the full slice -/
+theorem dictKey_not_mem (dims : List String) (kv : List (String × Ix))
+    (j : Nat) (hj : j < dims.length) (hmem : dims[j] ∉ kv.map (·.1)) :
+    (Spec.dictKey dims kv)[j]'(by simpa [Spec.dictKey] using hj) = fullIx := by
+  rw [C01T.dictKey_getElem dims kv j hj]
+  have : kv.reverse.find? (·.1 == dims[j]) = none := by
+    rw [List.find?_eq_none]
+    intro x hx hpx
+    apply hmem
+    have hx' : x ∈ kv := by simpa using hx
+    have hx1 : x.1 = dims[j] := by simpa using hpx
+    exact List.mem_map.mpr ⟨x, hx', hx1⟩
+  rw [this]
+  rfl
+
+
+/-- `take(ix, axis=k)` is the tuple form with `ix` on the dimension `k` names (by name, by position
+or by negative position) and full slices on the others -/
+theorem take_axis_eq_tuple {α : Type} (a : DimArray α) (ix : Ix) (k : DimKey) (d : String)
+    (cfg : IndexCfg) (hd : Spec.KeyDim a.dims k d) (hnd : a.dims.Nodup) (hix : ix ≠ .ellipsis) :
+    Lib.take a (.axisArg ix k) cfg = Lib.take a (.tuple (Spec.axisKey a.dims d ix)) cfg := by
+  have hne : ∀ x ∈ Spec.axisKey a.dims d ix, x ≠ .ellipsis := by
+    intro x hx
+    unfold Spec.axisKey at hx
+    obtain ⟨d', _, rfl⟩ := List.mem_map.mp hx
+    split
+    · exact hix
+    · simp [fullIx]
+  rw [C01T.take_eq, C01T.take_eq]
+  have h1 := C01T.normalize_axisArg a.dims ix k d hd hnd hix
+  have h2 := C01T.normalize_tuple a.dims (Spec.axisKey a.dims d ix) (by simp [Spec.axisKey]) hne
+  unfold DimArray.dims at h1 h2 ⊢
+  rw [h1, h2]
+
+theorem take_axis_badkey {α : Type} (a : DimArray α) (ix : Ix) (k : DimKey) (cfg : IndexCfg)
+    (hk : k ≠ .pos 0) (hbad : ∀ d, ¬ Spec.KeyDim a.dims k d) :
+    ∃ e, Lib.take a (.axisArg ix k) cfg = .error e ∧ (e = .value ∨ e = .index) := by
+  obtain ⟨e, he, hE⟩ := C01T.dictKV_err a.dims [(k, ix)] ⟨(k, ix), by simp, hbad⟩
+  refine ⟨e, ?_, hE⟩
+  rw [C01T.take_eq]
+  have h1 := C01T.normalize_axisArg_ne a.dims ix k hk
+  rw [C01T.normalize_dict, he] at h1
+  unfold DimArray.dims at h1
+  rw [h1]
+  rfl
+
+
+/-- non-vacuity: `{-1: 1, 'x': ['a']}` on dims `("x", "y")`: key `-1` names `y`; the mapping stands
+for the tuple `(['a'], 1)` -/
+example : Lib.take exArr (.dict [(.pos (-1), .scalar (.num 1)), (.name "x", .list [.str "a"])]) {} =
+    Lib.take exArr (.tuple [.list [.str "a"], .scalar (.num 1)]) {} := by
+  apply take_dict_eq_tuple exArr _ ["y", "x"] {} rfl
+  intro i h
+  rcases i with _ | _ | i
+  · simp [Spec.KeyDim, exArr, DimArray.dims]
+  · simp [Spec.KeyDim, exArr, DimArray.dims]
+  · simp at h; omega
+
+/-- the model's reading of a mapping that names the same dimension twice: the later entry wins.
+(Python differs in one corner: an int key always wins over a str key for the same dimension,
+whatever their order, because int keys are rewritten in place; two int keys behave as here.) -/
+example : Spec.dictKey ["x", "y"] [("x", .scalar (.num 1)), ("x", .scalar (.num 2))] =
+    [.scalar (.num 2), fullIx] := by decide
+
+/-- a name that is no dimension: `ValueError`; a position out of range: `IndexError` -/
+example : Lib.take exArr (.dict [(.name "z", fullIx)]) {} = .error .value ∧
+    Lib.take exArr (.dict [(.pos 2, fullIx)]) {} = .error .index ∧
+    Lib.take exArr (.axisArg fullIx (.pos (-3))) {} = .error .index := ⟨rfl, rfl, rfl⟩
+
+/-! ### `keepdims=True` -/
+
+/-- **keepdims.** With `keepdims=True` a scalar index means the list of that one label / position:
+the dimension is kept as a singleton carrying that label. In every mode, with or without
+tolerance, errors included (labels unique; `None` is not a requested label). -/
+theorem take_keepdims_spec {α : Type} (a : DimArray α) (ixs : List Ix) (cfg : IndexCfg)
+    (hk : cfg.keepdims = true) (hs : ∀ ix ∈ ixs, ix ≠ .scalar .none)
+    (hax : cfg.mode ≠ .position → ∀ ax ∈ a.axes, ax.labels.Nodup) :
+    Lib.take a (.tuple ixs) cfg =
+      Lib.take a (.tuple (ixs.map Ix.keep)) { cfg with keepdims := false } := by
+  rw [C01T.take_eq, C01T.take_eq]
+  have h1 : ∀ l, normalizeIndex (a.axes.map (·.name)) (.tuple l) =
+      expandedIndexer l (a.axes.map (·.name)).length := fun _ => rfl
+  rw [h1, h1, C01T.expandedIndexer_map_keep]
+  cases hE : expandedIndexer ixs (a.axes.map (·.name)).length with
+  | error e => rfl
+  | ok key =>
+    have hkey : ∀ ix ∈ key, ix ≠ .scalar .none := by
+      intro ix hix
+      rcases C01T.expandedIndexer_mem ixs _ key hE ix hix with h | h
+      · exact hs ix h
+      · rw [h]; simp [fullIx]
+    have := C01T.mapM_giStep_keep cfg hk key a.axes hkey (fun ax h hm => hax hm ax h)
+    simp only [Except.map, bind, Except.bind]
+    rw [this]
+
+theorem SimpleIx_keep (ix : Ix) (h : Spec.SimpleIx ix) : Spec.SimpleIx ix.keep := by
+  cases ix with
+  | scalar v => simp [Ix.keep, Spec.SimpleIx]
+  | list vs => exact h
+  | mask m => exact h
+  | ellipsis => exact h
+  | slice a b c => exact h
+
+/-- `keepdims=True` in label mode: a scalar label keeps its dimension as a singleton -/
+theorem take_keepdims_label {α : Type} (a : DimArray α) (ixs : List Ix) (cfg : IndexCfg)
+    (hm : cfg.mode = .label) (ht : cfg.tol = none) (hk : cfg.keepdims = true)
+    (hlen : ixs.length = a.axes.length) (hs : ∀ ix ∈ ixs, Spec.SimpleIx ix)
+    (hax : ∀ ax ∈ a.axes, ax.labels.Nodup ∧ ax.members = []) :
+    Lib.take a (.tuple ixs) cfg = Spec.take a (ixs.map Ix.keep) := by
+  rw [take_keepdims_spec a ixs cfg hk ?_ (fun _ ax h => (hax ax h).1)]
+  · apply take_spec a (ixs.map Ix.keep) { cfg with keepdims := false } hm ht rfl (by simpa using hlen) ?_ hax
+    intro ix hix
+    obtain ⟨ix', h', rfl⟩ := List.mem_map.mp hix
+    exact SimpleIx_keep ix' (hs ix' h')
+  · intro ix hix h
+    have := hs ix hix
+    rw [h] at this
+    exact this rfl
+
+
+/-- non-vacuity: `a.take(('a', 2), keepdims=True)` keeps both dimensions as singletons -/
+example : (Lib.take exArr (.tuple [.scalar (.str "a"), .scalar (.num 2)]) { keepdims := true }).toOption.map
+      (fun r => (r.dims, r.axes.map (·.labels), r.vals.toList))
+    = some (["x", "y"], [[.str "a"], [.num 2]], [5]) := by
+  rw [take_keepdims_label exArr _ { keepdims := true } rfl rfl rfl rfl
+    (by intro ix hix; simp at hix; rcases hix with rfl | rfl <;> simp [Spec.SimpleIx])
+    (by intro ax hax; simp [exArr] at hax; rcases hax with rfl | rfl <;> simp)]
+  decide
+
+/-- why `take_keepdims_spec` excludes `None` as a requested label: `values.tolist().index(None)` (the
+scalar path) raises `ValueError`, the list path `IndexError` -/
+theorem take_keepdims_none_counterexample :
+    Lib.take exArr (.tuple [.scalar .none, fullIx]) { keepdims := true } = .error .value ∧
+    Lib.take exArr (.tuple ([.scalar .none, fullIx].map Ix.keep)) { keepdims := false } = .error .index := by
+  constructor
+  · rfl
+  · rw [take_spec exArr _ { keepdims := false } rfl rfl rfl rfl
+      (by intro ix hix; simp [Ix.keep, fullIx] at hix; rcases hix with rfl | rfl <;> simp [Spec.SimpleIx])
+      (by intro ax hax; simp [exArr] at hax; rcases hax with rfl | rfl <;> simp)]
+    rfl
+
+/-! ### boolean masks, under every spelling -/
+
+/-- **masks.** A boolean mask per dimension (full slices elsewhere) selects the same thing in every
+mode and configuration (`.loc`, `.ix`, tolerance, keepdims): the positions where the mask is true
+(`mask_positions`), and a mask whose length is not the dimension's is an `IndexError`
+(`Spec.take` / `Spec.positions`). -/
+theorem take_mask_any_cfg {α : Type} (a : DimArray α) (ixs : List Ix) (cfg : IndexCfg)
+    (hlen : ixs.length = a.axes.length)
+    (hs : ∀ ix ∈ ixs, (∃ m, ix = .mask m) ∨ ix = fullIx)
+    (hax : ∀ ax ∈ a.axes, ax.members = []) :
+    Lib.take a (.tuple ixs) cfg = Spec.take a ixs := by
+  have hne : ∀ ix ∈ ixs, ix ≠ .ellipsis := by
+    intro ix hix
+    rcases hs ix hix with ⟨m, rfl⟩ | rfl
+    · simp
+    · simp [fullIx]
+  obtain ⟨hok, herr⟩ := C01T.take_of_spec a (.tuple ixs) ixs cfg (fun e => e = .index)
+    (fun ix ax => Spec.positions ax.labels ix)
+    (C01T.normalize_tuple _ ixs (by simpa using hlen) hne) hlen
+    (fun x hx => C01T.perDim_maskfull cfg x.1 x.2 (hax x.2 (List.of_mem_zip hx).2)
+      (hs x.1 (List.of_mem_zip hx).1))
+  unfold Spec.take
+  cases hS : (ixs.zip a.axes).mapM (fun (x : Ix × Axis) => Spec.positions x.2.labels x.1) with
+  | some ps => exact hok ps hS
+  | none =>
+    obtain ⟨e, he, rfl⟩ := herr hS
+    exact he
+
+/-- the positions a mask selects: in ascending order, exactly those where the mask is true -/
+theorem mask_positions (m : List Bool) :
+    nonzero m = (List.range m.length).filter (fun i => m[i]? = some true) :=
+  C01T.nonzero_eq_filter m
+
+
+/-! ### tolerance, end to end (`tol=`, `.nloc`) -/
+
+/-- `m` is the position of the label nearest to `q` (the first one among equally near labels), and
+that label lies within the tolerance -/
+def Spec.Nearest (qs : List Rat) (q : Rat) (t : Tol) (m : Nat) : Prop :=
+  m < qs.length ∧ (∀ i, i < qs.length → tolDist qs q m ≤ tolDist qs q i) ∧
+    (∀ i, i < m → tolDist qs q m < tolDist qs q i) ∧ t.ge (tolDist qs q m) = true
+
+/-- `locate_one(values, v, tol=t)` on numeric operands returns `m` exactly when `m` is the nearest
+label (first among ties) and lies within the tolerance -/
+theorem locateOne_tol_iff (L : List Label) (v : Label) (t : Tol) (q : Rat) (qs : List Rat) (m : Nat)
+    (hv : v.toRat? = some q) (hL : L.mapM Label.toRat? = some qs) :
+    locateOne L v (some t) = .ok m ↔ Spec.Nearest qs q t m := by
+  constructor
+  · exact locateOne_tol_ok L v t q qs m hv hL
+  · intro ⟨h1, h2, h3, h4⟩
+    have hne : qs ≠ [] := by
+      intro h; subst h; simp at h1
+    obtain ⟨hiff, hor⟩ := locateOne_tol_error L v t q qs hv hL hne
+    rcases hor with ⟨m', hm'⟩ | herr
+    · obtain ⟨g1, g2, g3, _⟩ := locateOne_tol_ok L v t q qs m' hv hL hm'
+      have : m' = m := by
+        rcases Nat.lt_trichotomy m m' with h | h | h
+        · have a1 := g3 m h
+          have a2 := h2 m' g1
+          grind
+        · exact h.symm
+        · have a1 := h3 m' h
+          have a2 := g2 m h1
+          grind
+      rw [hm', this]
+    · have := hiff.mp herr m h1
+      rw [h4] at this
+      cases this
+
+/-- the per-dimension meaning of an index under a tolerance: nearest-within-tolerance on a numeric
+axis, exact label lookup on the others (where the library ignores the tolerance) -/
+def Spec.tolDim (t : Tol) (ix : Ix) (ax : Axis) : Option PosIx :=
+  if ax.kind.isNumeric then Spec.tolPositions t ax.labels ix else Spec.positions ax.labels ix
+
+/-- **C01, tolerance.** In label mode with a tolerance `t`, every numeric dimension is sampled at
+the positions of the nearest labels within `t` (`Spec.tolPositions`, each position characterised
+by `locateOne_tol_iff`), every non-numeric dimension at the exact labels; the result axes carry the
+AXIS'S OWN labels at the selected positions (`Spec.takeAxes` / `axisSelect`), not the requested
+values. If some request has no label within the tolerance (or is not numeric, or the axis is
+empty) the read fails with `IndexError` (`TypeError`, `ValueError`). -/
+theorem take_tol_spec {α : Type} (a : DimArray α) (ixs : List Ix) (cfg : IndexCfg) (t : Tol)
+    (hm : cfg.mode = .label) (ht : cfg.tol = some t) (hk : cfg.keepdims = false)
+    (hlen : ixs.length = a.axes.length) (hs : ∀ ix ∈ ixs, Spec.SimpleIx ix)
+    (hax : ∀ ax ∈ a.axes, ax.members = [] ∧ (ax.kind.isNumeric = false → ax.labels.Nodup)) :
+    (∀ ps, (ixs.zip a.axes).mapM (fun x => Spec.tolDim t x.1 x.2) = some ps →
+      Lib.take a (.tuple ixs) cfg =
+        .ok { axes := Spec.takeAxes a.axes ps, vals := a.vals.outer ps, vkind := a.vkind,
+              attrs := a.attrs }) ∧
+    ((ixs.zip a.axes).mapM (fun x => Spec.tolDim t x.1 x.2) = none →
+      ∃ e, Lib.take a (.tuple ixs) cfg = .error e ∧ (e = .index ∨ e = .type ∨ e = .value)) := by
+  have hne : ∀ ix ∈ ixs, ix ≠ .ellipsis := by
+    intro ix hix h
+    have := hs ix hix
+    rw [h] at this
+    exact this
+  apply C01T.take_of_spec a (.tuple ixs) ixs cfg C01T.TolErr (Spec.tolDim t)
+    (C01T.normalize_tuple _ ixs (by simpa using hlen) hne) hlen
+  intro x hx
+  have hx' := List.of_mem_zip hx
+  obtain ⟨hp, hnd⟩ := hax x.2 hx'.2
+  unfold Spec.tolDim
+  by_cases hnum : x.2.kind.isNumeric = true
+  · simp only [hnum, if_true]
+    exact C01T.perDim_tol cfg t hm ht hk x.1 x.2 hnum (hs x.1 hx'.1) hp
+  · have hnum' : x.2.kind.isNumeric = false := by simpa using hnum
+    simp only [hnum', Bool.false_eq_true, if_false]
+    have hgi : C01T.giStep cfg (x.1, x.2) = giLabel { cfg with tol := none } (x.1, x.2) :=
+      C01T.giStep_tol_nonnumeric cfg x.1 x.2 hnum'
+    rcases perDim_spec { cfg with tol := none } hm rfl hk x.1 x.2 (hs x.1 hx'.1) (hnd hnum') hp with
+      ⟨r, p, h1, h2, h3, h4⟩ | ⟨h1, h3⟩ | ⟨r, h1, h2, h3⟩
+    · rw [h3]
+      exact ⟨r, hgi.trans h1, h2, h4⟩
+    · rw [h3]
+      exact Or.inl ⟨.index, hgi.trans h1, Or.inl rfl⟩
+    · rw [h3]
+      exact Or.inr ⟨r, .index, hgi.trans h1, h2, Or.inl rfl⟩
+
+
+/-- non-vacuity: axis `y` has labels `3, 1, 2`; requesting `[4, 0]` with tolerance `1` selects
+positions `0, 1`, and the result axis carries the labels `3, 1` found there (not `4, 0`). -/
+def exTolIx : List Ix := [fullIx, .list [.num 4, .num 0]]
+def exTolCfg : IndexCfg := { tol := some (.fin 1) }
+
+theorem exTol_4 : locateOne [.num 3, .num 1, .num 2] (.num 4) (some (.fin 1)) = .ok 0 := by
+  rw [locateOne_tol_unfold _ _ _ 4 [3, 1, 2] rfl rfl (by simp)]
+  simp only [argminRat, argminRat.go, ratAbs, List.map, Tol.ge]
+  grind
+
+theorem exTol_0 : locateOne [.num 3, .num 1, .num 2] (.num 0) (some (.fin 1)) = .ok 1 := by
+  rw [locateOne_tol_unfold _ _ _ 0 [3, 1, 2] rfl rfl (by simp)]
+  simp only [argminRat, argminRat.go, ratAbs, List.map, Tol.ge]
+  grind
+
+example : (Lib.take exArr (.tuple exTolIx) exTolCfg).toOption.map
+      (fun r => (r.dims, r.axes.map (·.labels), r.vals.toList))
+    = some (["x", "y"], [[.str "b", .str "a"], [.num 3, .num 1]], [0, 1, 3, 4]) := by
+  rw [(take_tol_spec exArr exTolIx exTolCfg (.fin 1) rfl rfl rfl rfl
+    (by intro ix hix; simp [exTolIx] at hix; rcases hix with rfl | rfl <;> simp [Spec.SimpleIx, fullIx])
+    (by intro ax hax; simp [exArr] at hax; rcases hax with rfl | rfl <;> simp)).1
+    [.list [0, 1], .list [0, 1]]
+    (by simp [exTolIx, exArr, Spec.tolDim, Spec.tolPositions, Spec.positions, fullIx, Kind.isNumeric,
+          exTol_4, exTol_0, Except.toOption]; rfl)]
+  decide
 
 end DimModel
